@@ -4,6 +4,8 @@ From Frugal Require Import Bytes Wire Skip Values Desc Spec Encode Decode Checks
 From Frugal.gen Require Import Params.
 From Frugal.proofs Require Import GenDecParams GenDepth SkipPut Corollaries.
 From Frugal.props Require Import Examples.
+From Frugal Require Import DisciplineChecks.
+From Frugal.proofs Require Import GenPools GenDepthArgs.
 Import ListNotations.
 
 (* any wire struct, whatever the field order, duplicates, unknown or retyped fields, whoever wrote
@@ -43,3 +45,8 @@ Proof. split; vm_compute; reflexivity. Qed.
    for what the translator read from the sources of this run *)
 Theorem C03_side_conditions : dec_params_ok = true /\ depth_ok = true.
 Proof. split; [exact dec_params_ok_holds | exact depth_ok_holds]. Qed.
+
+(* structural facts about the Go source which the hand-written model builds in (DisciplineChecks.v),
+   read from the source by the translator and re-proved on every run *)
+Theorem C03_model_assumptions : pools_ok = true /\ depth_args_ok = true.
+Proof. split; [exact pools_ok_holds | exact depth_args_ok_holds]. Qed.
